@@ -45,7 +45,7 @@ func RunFrontends(c *fw.Ctx) {
 	c.Assume("front-ends: a failed non-query statement aborts the whole transaction (Engine.ExecPreparedStmts cancels it); a failed query does not")
 	c.Assume("front-ends: the snapshot of a table is taken between BEGIN and the first statement touching it (known open finding sqltx/snapshot-not-fixed-across-indexes: one state per table is accepted)")
 	r := c.Rand("c13s/cases")
-	n := c.N(90, 900)
+	n := c.N(70, 700)
 	var cases [][]byte
 	for i := 0; i < n; i++ {
 		cs := caseSpec{Idx: i, Sessions: 2 + r.IntN(4), Progs: 8 + r.IntN(8)}
